@@ -9,7 +9,7 @@ for res in sorted(glob.glob(os.path.join(VERIF, ".work", "seed-results", "C*-m*.
     prop, m = name.split("-")
     src = "%s/out-%s/%s" % (os.environ.get("SEEDROOT", "/tmp/seed"), prop, m)
     if not os.path.isdir(src):
-        src = "/tmp/seed2/out-%s/%s" % (prop, m)
+        src = "/tmp/seed3/out-%s/%s" % (prop, m)
     try:
         r = json.load(open(res))
     except Exception:
